@@ -2240,6 +2240,25 @@ fn render_table_tree<T: Write, D: TextDecorator>(
             colno += cell.colspan;
         }
     }
+    // Sharing a spanning cell's estimate between its columns rounds down; when the columns it
+    // spans end up smaller than the cell needs (at worst: no size at all, and the cell's text
+    // would be lost), let its first column carry the difference.
+    for row in table.rows() {
+        let mut colno = 0;
+        for cell in row.cells() {
+            if cell.colspan > 1 {
+                let estimate = cell.get_size_estimate();
+                let span = colno..colno + cell.colspan;
+                let have_size: usize = col_sizes[span.clone()].iter().map(|est| est.size).sum();
+                let have_min: usize = col_sizes[span].iter().map(|est| est.min_width).sum();
+                let first = &mut col_sizes[colno];
+                first.size += estimate.size.saturating_sub(have_size);
+                first.min_width += estimate.min_width.saturating_sub(have_min);
+                first.size = first.size.max(first.min_width);
+            }
+            colno += cell.colspan;
+        }
+    }
     // TODO: remove empty columns
     let tot_size: usize = col_sizes.iter().map(|est| est.size).sum();
     let min_size: usize = col_sizes.iter().map(|est| est.min_width).sum::<usize>()
